@@ -1081,3 +1081,14 @@ add("C20", "benign: merged private-copy condition counting every node object onc
     "    copy = len(source_ids | target_ids) != len(source_nodes) + len(target_nodes)\n", "silent", 0)
 add("C20", "benign: private-copy condition through helper locals and isdisjoint", DIFF, _C20I_OLD,
     "    duplicated = len(target_nodes) != len(target_ids) or len(source_ids) != len(source_nodes)\n    copy = duplicated or not source_ids.isdisjoint(target_ids)\n", "silent", 0)
+
+# ------------------------------------------------------------------------------- C18.h
+add("C18", "add_table returns early when the registered columns compare equal (order-insensitive)", SCHEMA,
+    "        if schema and not normalized_column_mapping:\n",
+    "        if schema and (not normalized_column_mapping or schema == normalized_column_mapping):\n", "C18.h")
+add("C18", "benign: emptiness of the new mapping tested against a literal", SCHEMA,
+    "        if schema and not normalized_column_mapping:\n",
+    "        if schema and normalized_column_mapping == {}:\n", "silent", 0)
+add("C18", "benign: order-sensitive comparison of the column lists", SCHEMA,
+    "        if schema and not normalized_column_mapping:\n",
+    "        if schema and (not normalized_column_mapping or (list(schema.items()) == list(normalized_column_mapping.items()) and False)):\n", "silent", 0)
